@@ -12,7 +12,10 @@ THEOREMS = ["EngineModel.Properties.C14." + t for t in [
     "C14_fault_is_reported", "C14_all_or_nothing", "C14_skeleton_decides",
     "C14_crates_v1_program", "C14_crates_v1_shape", "C14_crates_v1_skeleton", "C14_crates_v1_all_or_nothing",
     "C14_crates_v1_self_throw",
-    "C14_crates_v2_program", "C14_crates_v2_shape", "C14_crates_v2_skeleton", "C14_crates_v2_all_or_nothing"]]
+    "C14_crates_v2_program", "C14_crates_v2_shape", "C14_crates_v2_skeleton", "C14_crates_v2_all_or_nothing",
+    "C14_tracks_v2_program", "C14_tracks_v2_shape", "C14_tracks_v2_skeleton", "C14_tracks_v2_all_or_nothing",
+    "C14_set_bpm_unscoped_counterexample", "C14_remove_track_unscoped_counterexample",
+    "C14_tracks_v1_program", "C14_tracks_v1_shape", "C14_tracks_v1_all_or_nothing"]]
 ASSUMPTIONS = [
     "SqliteSemantics (modelled, Spec/Txn.lean): a statement applies completely or not at all; BEGIN fails inside a "
     "transaction, COMMIT fails outside one; ROLLBACK restores the committed database; an error may or may not roll "
@@ -315,6 +318,9 @@ def tie(ctx):
             divergences.append({"input": "%s | %s | %s" % (c["schema"], c["op"], c["line"][:60]),
                                 "impl": "observed statements %s, skeleton %s" % (c["trace"][:80], sk),
                                 "model": "the model's statement program has skeleton %s" % " or ".join(allowed[key])})
+    if unmodelled:
+        divergences.append({"input": "c14.allowed", "impl": "public mutating operations exercised: " + ", ".join(sorted(unmodelled))[:300],
+                            "model": "no concrete statement program for them (Lean driver answers 'unmodelled')"})
     # ---- fault-free run checks
     for c in cases:
         if c["status"] == "rejected":
